@@ -238,12 +238,37 @@ package fasthttp
 //@   ghost failed bool = false
 //@   ghost dec int = 0
 //@   ghost pooled int = 0
+//@   ghost delivered bool = false
 //@   on call HostClient.dialHostHard -> conn, e:
 //@     effect failed = (e != nil)
 //@   on call HostClient.decConnsCount:
 //@     effect dec = dec + 1
 //@   on call HostClient.ReleaseConn:
 //@     effect pooled = pooled + 1
+//@   on call wantConn.tryDeliver -> ok:
+//@     effect delivered = ok
 //@   end
 //@   ensures[failed-dial-returns-slot] failed ==> dec == 1 && pooled == 0
 //@   ensures[successful-dial-keeps-slot] !failed ==> dec == 0 && pooled <= 1
+//@   ensures[dialled-conn-gets-an-owner] !failed ==> (delivered && pooled == 0) || (!delivered && pooled == 1)
+
+// C04, PipelineClient: a work item carries one request and the slot its response is copied into. Once it has been put
+// on the write queue it belongs to the writer / reader goroutines until they signal w.done; it goes back to the pool
+// (from where the next call takes it) only if it was never queued or after that signal -- never on the timeout
+// branch, where the response may still arrive later and would be delivered to whoever holds the item then.
+//@ func pipelineConnClient.DoDeadline results err
+//@   property C04
+//@   mode skeleton
+//@   ghost queued bool = false
+//@   ghost answered bool = false
+//@   ghost released int = 0
+//@   on send chs.chW:
+//@     effect queued = true
+//@   on recv w.done:
+//@     effect answered = true
+//@   on call pipelineConnClient.releasePipelineWork:
+//@     requires[work-item-not-in-flight] !queued || answered
+//@     requires[released-once] released == 0
+//@     effect released = released + 1
+//@   end
+//@   ensures[success-is-an-answered-request] err == nil ==> queued && answered
